@@ -460,12 +460,19 @@ def stepAct (s : State) (a : Nat) : Option (State × Obs) :=
         let s1 := s.setQ q { v with state := r.1 }
         if r.2 = .park then some (s1.goto a (.rjParkCheck q j k), .csQ q)
         else if r.2 = .continue then some (s1.goto a (.jobStart j (.caller q) k), .csQ q)
-        else some (s1.goto a (.unwinding k), .csQ q)
+        else
+          -- the panic unwinds through run_one_job_now: the job it holds is dropped
+          match s1.jobs[j]? with
+          | some jb => some ((s1.setJob j { jb with ph := .done, ended := true }).goto a (.unwinding k), .csQ q)
+          | none => some (s1.goto a (.unwinding k), .csQ q)
   | .rjParkCheck q j k =>
       match parkCheck (s.qState q) with
       | .continue => some (s.goto a (.jobStart j (.caller q) k), .csQ q)
       | .park => some (s.goto a (.rjPark q j k), .csQ q)
-      | .panic => some (s.goto a (.unwinding k), .csQ q)
+      | .panic =>
+        match s.jobs[j]? with
+        | some jb => some ((s.setJob j { jb with ph := .done, ended := true }).goto a (.unwinding k), .csQ q)
+        | none => some (s.goto a (.unwinding k), .csQ q)
   | .rjPark q j k => some (s.goto a (.rjParked q j k), .park)
   | .rjParked q j k =>
       if s.parkToken.contains t then
